@@ -1570,11 +1570,12 @@ class Parameter(_ParameterBase):
             refs = obj._param__private.refs
             resolved = not (is_async or val is Undefined)
             relinks = ref is not None or (name in refs and not syncing)
-            if resolved and relinks:
+            if relinks:
                 # The assignment starts or ends a link: reject an invalid
                 # value before the links of the object are touched
-                self._validate(val)
-                self._validate_settable(obj, val)
+                if resolved:
+                    self._validate(val)
+                self._validate_settable(obj, val, ref)
             if ref is not None:
                 self.owner.param._update_ref(name, ref)
             elif name in refs and not syncing:
@@ -1656,12 +1657,18 @@ class Parameter(_ParameterBase):
             if not obj.param._BATCH_WATCH:
                 obj.param._batch_call_watchers()
 
-    def _validate_settable(self, obj, val):
-        """Raise if this read-only or constant Parameter cannot be set to val on the initialized instance obj."""
+    def _validate_settable(self, obj, val, ref=None):
+        """
+        Raise if this read-only or constant Parameter cannot be set to val
+        (the current value of the reference ref, if one is being assigned)
+        on the initialized instance obj.
+        """
         if self.readonly:
             raise TypeError("Read-only parameter '%s' cannot be modified" % self.name)
         if self.constant and obj._param__private.initialized:
-            if val is not obj._param__private.values.get(self.name, self.default):
+            # A reference would keep rebinding the constant whenever its
+            # source changes, whatever it resolves to at the moment
+            if ref is not None or val is not obj._param__private.values.get(self.name, self.default):
                 raise TypeError("Constant parameter '%s' cannot be modified" % self.name)
 
     def _validate_value(self, value, allow_None):
